@@ -1,7 +1,7 @@
 (* Run.C14 — driver for the generated correspondence cases of C14 (and, re-used, C13).
    Texts are written by the harness as UTF-8 Coq string literals and decoded here to code points. *)
 From Coq Require Import ZArith NArith String Ascii List Bool.
-From JMCV Require Import Model.Tok Model.TokPos Model.TokDerived Model.TokCite Run.Common.
+From JMCV Require Import Model.Tok Model.TokPos Model.TokDerived Model.TokCite Model.TokArgs Model.TokEnd Run.Common.
 Import ListNotations.
 Open Scope Z_scope.
 
@@ -82,8 +82,12 @@ Definition diag_char_ok (s : str) (p : pos) (d : diag) (l k : Z) : bool :=
   | DStringLineBreak | DStringLineBreakEOF | DExpectedSemicolon => true
   end.
 
-Definition tcase_ok (e : env) (c : tcase) : bool :=
-  match model_of e c, c_out c with
+(* strengthening round 4: the repaired tokenizer ("Expected semicolon(;)" cites Token.end of the last token: Model.TokEnd.parse_r) *)
+Definition model_of_r (e : env) (c : tcase) : result (list (list token)) :=
+  parse_r (uni_of e) (printable_of e) (c_alms c) (c_es c) (c_asemi c) (utf8 (c_text c)) (c_line c) (c_col c).
+
+Definition tcase_ok_with (m : result (list (list token))) (e : env) (c : tcase) : bool :=
+  match m, c_out c with
   | Ok progs, ROk rprogs => list_eqb (list_eqb tok_eqb) progs rprogs
   | Diag d l col, RDiag w rl rc =>
     Bool.eqb (is_warning d) w && Z.eqb l rl &&
@@ -94,6 +98,13 @@ Definition tcase_ok (e : env) (c : tcase) : bool :=
   | Crash _, RCrash => true
   | _, _ => false
   end.
+(* C14's own tie: the repaired model, exactly *)
+Definition tcase_ok_r (e : env) (c : tcase) : bool := tcase_ok_with (model_of_r e c) e c.
+Definition tmismatches_r (e : env) (l : list tcase) : list nat := bad_indices (tcase_ok_r e) l.
+(* the tie as C13 uses it (outcome classes; C13 is not about positions): Model.Tok.parse, or parse_r, which differs from it
+   only in the position of "Expected semicolon(;)" behind a string literal (theorem C14_parse_r_same_outcome) - so that C13
+   holds on the tree with and without fixes/C14-string-literal-end.patch *)
+Definition tcase_ok (e : env) (c : tcase) : bool := tcase_ok_with (model_of e c) e c || tcase_ok_r e c.
 Definition tmismatches (e : env) (l : list tcase) : list nat := bad_indices (tcase_ok e) l.
 
 (* ---- plants: where does the model's deep re-tokenisation (repaired hand-overs) put a needle? *)
@@ -137,3 +148,107 @@ Definition show_model (e : env) (c : tcase) : result (list (list (ttype * Z * Z 
   | Diag d l k => Diag d l k
   | Crash x => Crash x
   end.
+
+(* ==================================================================================================================
+   strengthening round 4 *)
+Definition pos_opt_eqb (a : option (Z * Z)) (b : option (Z * Z)) : bool :=
+  match a, b with
+  | Some x, Some y => pos_eqb x y
+  | None, None => true
+  | _, _ => false
+  end.
+
+(* ---- (E, repaired) every call of error_msg with a token: header and sentence == Model.TokEnd.cite_r col_length token rec,
+        rec = the end position recorded in the token (Token._macro_end), if any; and Token.end / Token.length of that token ==
+        the model's (tok_len_r: a string literal on one line: recorded end column - start column) *)
+Record ercase := ER { er_tok : rtok; er_cl : bool; er_entire : bool; er_line : Z; er_col : option Z; er_hline : Z; er_hcol : option Z;
+                      er_rec : option (Z * Z); er_end : Z * Z; er_len : Z }.
+Definition token_end_r (e : env) (t : token) (rec : option (Z * Z)) : Z * Z := cite_r (printable_of e) true t rec.
+Definition ercase_ok (e : env) (c : ercase) : bool :=
+  let t := tok_of_r (er_tok c) in
+  let '(l, k) := cite_r (printable_of e) (er_cl c) t (er_rec c) in
+  Z.eqb l (er_line c) && Z.eqb l (er_hline c) &&
+  (if er_entire c then match er_col c, er_hcol c with None, None => true | _, _ => false end
+   else opt_is (er_col c) k && opt_is (er_hcol c) k) &&
+  pos_eqb (token_end_r e t (er_rec c)) (er_end c) &&
+  Z.eqb (tok_len_r (printable_of e) t (er_rec c)) (er_len c).
+Definition ermismatches (e : env) (l : list ercase) : list nat := bad_indices (ercase_ok e) l.
+
+(* ---- (X) the end the tokenizer records for every string literal of a Tokenizer.parse call == Model.TokEnd.parse_ends;
+        x_ends: for each STRING token of the real result, in order: start, Token.end, Token.length *)
+Record xcase := XC { x_text : string; x_line : Z; x_col : Z; x_es : bool; x_alms : bool; x_asemi : bool;
+                     x_ends : list (Z * Z * (Z * Z) * Z) }.
+Definition model_ends (e : env) (c : xcase) : option (list (Z * Z * (Z * Z) * Z)) :=
+  match parse_ends (uni_of e) (printable_of e) (x_alms c) (x_es c) (x_asemi c) (utf8 (x_text c)) (x_line c) (x_col c) with
+  | Ok (progs, ends) =>
+    Some (flat_map (fun t => if ttype_eqb (t_type t) STRING
+                             then [((t_line t, t_col t), tok_end (printable_of e) ends t,
+                                    tok_len_r (printable_of e) t (lookup_end (t_line t, t_col t) ends))]
+                             else []) (concat progs))
+  | _ => None
+  end.
+Definition xent_eqb (a b : Z * Z * (Z * Z) * Z) : bool :=
+  let '(s1, e1, n1) := a in let '(s2, e2, n2) := b in pos_eqb s1 s2 && pos_eqb e1 e2 && Z.eqb n1 n2.
+Definition xcase_ok (e : env) (c : xcase) : bool :=
+  match model_ends e c with Some l => list_eqb xent_eqb l (x_ends c) | None => false end.
+Definition xmismatches (e : env) (l : list xcase) : list nat := bad_indices (xcase_ok e) l.
+
+(* ---- (G) the argument-list parsers: what parse_func_args / parse_js_obj / parse_component / parse_list / parse_param did
+        on the tokens of their inner tokenizer run == Model.TokArgs *)
+Inductive afn := FArgs | FObj | FComp | FList | FParam.
+Inductive aout :=
+| GArgs (args : list (list rtok)) (kwargs : list (string * list rtok))
+| GPairs (items : list (string * option (ttype * Z * Z)))
+| GList (items : list rtok)
+| GParams (names : list string)
+| GDiag (d : adiag) (t : rtok).
+Record gcase := GC { g_fn : afn; g_kws : list rtok; g_out : aout }.
+
+Definition adiag_eqb (a b : adiag) : bool :=
+  match a, b with
+  | ACommaEnd, ACommaEnd | AComma, AComma | AKwNoValue, AKwNoValue | ADupKey, ADupKey | AArrowNothing, AArrowNothing
+  | AArrowNotCurly, AArrowNotCurly | AArrowExtra, AArrowExtra | AUnexpectedAfter, AUnexpectedAfter | AEmptyKey, AEmptyKey
+  | APositional, APositional | AExpectedPair, AExpectedPair | AListDupComma, AListDupComma
+  | AListExpectedComma, AListExpectedComma | AParamKeyword, AParamKeyword => true
+  | _, _ => false
+  end.
+Definition head_eqb (a b : option (ttype * Z * Z)) : bool :=
+  match a, b with
+  | Some (t1, l1, c1), Some (t2, l2, c2) => ttype_eqb t1 t2 && Z.eqb l1 l2 && Z.eqb c1 c2
+  | None, None => true
+  | _, _ => false
+  end.
+Definition gcase_ok (c : gcase) : bool :=
+  let kws := map tok_of_r (g_kws c) in
+  let diag_ok {A} (r : ares A) (d : adiag) (t : rtok) :=
+    match r with ADiag d' t' => adiag_eqb d d' && tok_eqb t' t | _ => false end in
+  match g_fn c, g_out c with
+  | FArgs, GArgs a k =>
+    match func_args false kws with
+    | AOk (a', k') => list_eqb (list_eqb tok_eqb) a' a
+                      && list_eqb (fun (x : str * list token) (y : string * list rtok) =>
+                                     seqb (fst x) (utf8 (fst y)) && list_eqb tok_eqb (snd x) (snd y)) k' k
+    | _ => false end
+  | FArgs, GDiag d t => diag_ok (func_args false kws) d t
+  | FObj, GPairs p =>
+    match pairs false s_colon kws with
+    | AOk p' => list_eqb (fun (x : str * option (ttype * Z * Z)) (y : string * option (ttype * Z * Z)) =>
+                            seqb (fst x) (utf8 (fst y)) && head_eqb (snd x) (snd y)) p' p
+    | _ => false end
+  | FObj, GDiag d t => diag_ok (pairs false s_colon kws) d t
+  | FComp, GPairs p =>
+    match pairs false TokArgs.s_eq kws with
+    | AOk p' => list_eqb (fun (x : str * option (ttype * Z * Z)) (y : string * option (ttype * Z * Z)) =>
+                            seqb (fst x) (utf8 (fst y)) && head_eqb (snd x) (snd y)) p' p
+    | _ => false end
+  | FComp, GDiag d t => diag_ok (pairs false TokArgs.s_eq kws) d t
+  | FList, GList l => match list_items kws with AOk l' => list_eqb tok_eqb l' l | _ => false end
+  | FList, GDiag d t => diag_ok (list_items kws) d t
+  | FParam, GParams n => match params kws with AOk n' => list_eqb (fun (x : str) (y : string) => seqb x (utf8 y)) n' n | _ => false end
+  | FParam, GDiag d t => diag_ok (params kws) d t
+  | _, _ => false
+  end.
+Definition gmismatches (l : list gcase) : list nat := bad_indices gcase_ok l.
+(* which token the variant `late` (index advanced at the end of the loop body) would cite - for messages *)
+Definition show_args_late (c : gcase) : option (Z * Z) :=
+  match func_args true (map tok_of_r (g_kws c)) with ADiag _ t => Some (t_line t, t_col t) | _ => None end.
